@@ -45,11 +45,18 @@ async def s_mixed(c):
     await c.command("EPSV", "229")
 
 
-SCRIPTS = [s_list, s_upload, s_download, s_meta, s_mixed]
+async def s_restart(c):
+    async with c.upload_stream("d/g", offset=1) as s:
+        await s.write(b"zz")
+    async with c.download_stream("d/f", offset=2) as s:
+        await s.read()
+
+
+SCRIPTS = [s_list, s_upload, s_download, s_meta, s_mixed, s_restart]
 CUTS = ["vanish", "close", "ctrl_reset"]  # ctrl_reset: only the control connection dies, data connections stay open and silent
 
 
-def run(si, cut_i, k, pool, measure=False):
+def run(si, cut_i, k, pool, measure=False, lat=0):
     """real Client against the real Server over SimNet; at loop iteration k either every client transport vanishes or
     server.close() is called.  -> oracle verdict"""
     hb.KEY = ""
@@ -77,7 +84,7 @@ def run(si, cut_i, k, pool, measure=False):
     async def main():
         await server.start("10.0.0.1", 21)
         st.build_tree(server, TREE)
-        hb.SpyPathIO.reset()
+        hb.SpyPathIO.reset(latency=lat)  # lat > 0: every backend call suspends for lat virtual ms, the cut can fall inside one
         state["armed"] = loop.iterations
         ct = asyncio.ensure_future(client_side())
         # wait until the cut has fired and everything has gone quiet, or the script finished
@@ -119,6 +126,7 @@ def run(si, cut_i, k, pool, measure=False):
         return False
     finally:
         srv.asyncio = st._AsyncioProxy(st.Listeners())
+        hb.SpyPathIO.latency = 0
     if measure:
         return state["iters"]
     hb.path_done("c12", SCRIPTS[si].__name__ + ":" + cut + (":fired" if state["fired"] else ":late"))
